@@ -18,6 +18,11 @@ P = {
  "C12": ("W-TABLE", "blind level of every hand compared with the set of levels that can have been in force when it opened (updates overlapping the open are accepted either way, mixtures and lost updates are not); break handling", "6/C12", "admin blind updates at drawn instants, statement-level schedules in the open path"),
  "C13": ("W-TABLE", "fault-injecting wrapper around the real backend: failures by kind, once or consecutively, and slowness; judged failed calls (error returned, no trace, retry), chain integrity of states between backend calls, engine-driven failures must reach the error callback", "6/C13", "backend fault injection through the GameBackend seam"),
  "C14": ("W-TABLE", "statistics at settlement compared with the harness record of accepted actions; did-flags imply chance-flags; cleared before the next hand", "6/C14", "seeded betting lines, statement-level schedules around actions and settlement"),
+ "C16": ("W-MEMB + W-TABLE(stampede) + W-SEAT", "2..16 caller tasks issue reservations / departures / batch updates at the same simulated instant under statement-level schedules; the recorded history (global event sequence numbers, seat observed through the reserved callback) is checked for linearizability against a sequential seat-table model with porcupine, then the C03 bookkeeping is checked; in W-TABLE every participant submits duplicated game actions from separate tasks at every turn (non-atomic calls): a step applied twice to one hand state (fork) is reported; W-SEAT adds concurrent seat-manager assigners", "6/C16", "seeded statement-level schedules (PCT / sticky / random), porcupine linearizability check, fork detection at the backend seam"),
+ "C17": ("W-MGR", "twin run: the same seed is executed twice in one process, once through Manager.X(tableID, ...) and once on the engines themselves, with the manager's own statements masked from the scheduler; the two complete event logs must be identical; every manager operation is an atomic section with a before/after comparison of all other tables; unknown / closed / released ids must give the not-found error", "6/C17", "deterministic twin execution (refinement by replay), 22 manager operations over 1..5 tables"),
+ "C18": ("W-ACTOR", "the repository's bot runners (humanised or not) play whole tables through recording adapters in front of the real engine: every call must be for the bot itself and accepted, at most one per request, bot-only hands settle (bounded liveness)", "6/C18", "simulated clock and backend latency, stacks from one chip, seeded schedules"),
+ "C19": ("W-ACTOR", "player runners that never receive human input (running / idle / suspended, status changes at drawn instants): recorded calls are only pass / ready / check / fold / mandatory pay of the posted size, most conservative first, never before the thinking time has elapsed unless suspended", "6/C19", "simulated clock (thinking-time timers), status changes as faults, seeded schedules"),
+ "C20": ("W-ACTOR", "every table handed to a non-system observer is inspected for deck / burned cards / hole cards / hand strength in every status (workload includes a pause or close request in the middle of a hand); the observer scribbles over its copy and the handed-out value, the other actors' views and the engine's table are compared before/after", "6/C20", "pause/close at drawn instants, seeded schedules, before/after isolation oracle"),
  "C15": ("W-TABLE", "published deadline per turn = request time + action time (simulated clock), cleared on round close and between hands", "6/C15", "simulated clock, concurrent publishers"),
 }
 LEVEL = {"C13": "fault_enumeration"}
@@ -35,8 +40,7 @@ for pid in sorted(P):
         level_note="sampling, not enumeration; sequentially consistent statement-granular interleavings; pokerface trusted as rule oracle; spec parameters (17 s response timeout, 2 s open-game timeout, label order) taken from the property text",
         technique=TECH + ": " + tech))
 ALL = ["C%02d" % i for i in range(1, 21)]
-PENDING = {"C16": "check under construction (W-MEMB world, porcupine linearizability)", "C17": "check under construction (W-MGR twin-run world)",
-           "C18": "check under construction (W-ACTOR world)", "C19": "check under construction (W-ACTOR world)", "C20": "check under construction (W-ACTOR world)"}
+PENDING = {}
 for pid in ALL:
     if pid not in P:
         m["not_applicable"].append(dict(property_id=pid, reason=PENDING.get(pid, "not claimed")))
